@@ -58,7 +58,7 @@ CONSTANTS AsCoded,       \* BOOLEAN, see above
           MaxNotes,      \* notifications sent by the service after the subscribe call returned
           SzRet, SzBig, SzErr, SzInv   \* len(Result)+len(Error) of the responses of the test service
 
-(* entry  = [k |-> "call"|"notif"|"inv"|"resp", id |-> 0.., m |-> "ret"|"err"|"big"|"blk"|"cblk"|"sub"|"-"] *)
+(* entry  = [k |-> "call"|"notif"|"inv"|"resp", id |-> 0.., m |-> "ret"|"err"|"big"|"blk"|"cblk"|"sub"|"nsub"|"-"] *)
 (* "blk" blocks until the environment releases it and ignores its context, "cblk" blocks until its       *)
 (* context is cancelled.                                                                                 *)
 (* message = [batch |-> BOOLEAN, items |-> Seq(entry)]   (non-batch: exactly one item)                 *)
@@ -94,7 +94,10 @@ Init ==
 
 -----------------------------------------------------------------------------
 (* dispatch loop: handleBatch / handleMsg up to startCallProc (runs in the read loop) *)
-NotResp(e) == e.k # "resp"
+(* handleResponses drops responses to requests this side never sent, and notifications whose method name ends in
+   "_subscription" (results of client-side subscriptions; none is registered here).  A CALL with such a name
+   ("nsub") is an ordinary call. *)
+NotResp(e) == ~(e.k = "resp" \/ (e.k = "notif" /\ e.m = "nsub"))
 Recv(m) ==
   /\ nrecv < MaxMsgs
   /\ LET p == nrecv + 1
@@ -129,6 +132,7 @@ Start(p) ==
 Immediate(e, j) ==
   CASE e.k = "inv"                  -> R(e.id, "invalid")
     [] e.m = "ret"                  -> R(e.id, "ok")
+    [] e.m = "nsub"                 -> R(e.id, "ok")
     [] e.m = "big"                  -> R(e.id, "ok")
     [] e.m \in {"blk", "cblk"}       -> R(e.id, "ok")
     [] e.m = "err"                  -> R(e.id, "err")
